@@ -17,30 +17,30 @@ static uint8_t const dict[] = {0, 1, 2, 3, 7, 8};
 static vp_info const info = {"C12", "pid", "", labels, metrics, 500, dict, sizeof(dict)};
 extern "C" vp_info const *vp_get_info(void) { return &info; }
 
-// reference written from the documented difference equations (pid.h); the same arithmetic in double,
+// reference written from the documented difference equations (pid.h); the same arithmetic in R,
 // so on the exact class (integers, dyadic gains) every operation is exact and equality is required
 struct RefPid
 {
-    double kp, ki, kd, summax, summin, sum, outmax, outmin, out, var, fdb, err;
-    static double sat(double x, double lo, double hi) { return lo < x ? (x < hi ? x : hi) : lo; }
-    double run(double set, double f)
+    R kp, ki, kd, summax, summin, sum, outmax, outmin, out, var, fdb, err;
+    static R sat(R x, R lo, R hi) { return lo < x ? (x < hi ? x : hi) : lo; }
+    R run(R set, R f)
     {
-        double e = set - f, v = fdb - f;
+        R e = set - f, v = fdb - f;
         out = sat(set, outmin, outmax);
         var = v; fdb = f; err = e;
         return out;
     }
-    double pos(double set, double f)
+    R pos(R set, R f)
     {
-        double e = set - f, v = fdb - f;
+        R e = set - f, v = fdb - f;
         if ((sum > summin && sum < summax) || sum * e < 0) { sum += ki * e; }
         out = sat(kp * e + sum + kd * v, outmin, outmax);
         var = v; fdb = f; err = e;
         return out;
     }
-    double inc(double set, double f)
+    R inc(R set, R f)
     {
-        double e = set - f, v = fdb - f;
+        R e = set - f, v = fdb - f;
         out = sat(out + (kp * (e - err) + ki * e + kd * (v - var)), outmin, outmax);
         var = v; fdb = f; err = e;
         return out;
@@ -48,7 +48,13 @@ struct RefPid
     void zero() { sum = out = var = fdb = err = 0; }
 };
 
-static bool fin(double x) { return std::isfinite(x); }
+static R const EPS = std::numeric_limits<R>::epsilon();
+static LD const U_ = LD(std::numeric_limits<R>::epsilon()) / 2;
+static R const BIG = std::numeric_limits<R>::max() / R(1e8); // "no limit": wider than anything reachable
+// exact class: every intermediate of the documented equations has to be exactly representable in a_real - integers up to
+// IN_LIM, gains in eighths: 200 steps keep |sum|, |out| below 2^21 with three fractional bits in the float build
+static int const IN_LIM = sizeof(R) == 4 ? 100 : 1000;
+static bool fin(R x) { return std::isfinite(x); }
 
 static void check_state(Ctx &cx, a_pid const &p, char const *who, unsigned step)
 {
@@ -59,7 +65,7 @@ static void check_state(Ctx &cx, a_pid const &p, char const *who, unsigned step)
 
 struct Limits
 {
-    double kp, ki, kd, summax, summin, outmax, outmin;
+    R kp, ki, kd, summax, summin, outmax, outmin;
 };
 
 static Limits gen_cfg(Tape &t, Ctx &cx, bool exact, bool wide)
@@ -67,25 +73,25 @@ static Limits gen_cfg(Tape &t, Ctx &cx, bool exact, bool wide)
     Limits c;
     if (exact)
     {
-        c.kp = double(int(t.u8() % 129) - 64) / 8;
-        c.ki = double(t.u8() % 65) / 8;
-        c.kd = double(int(t.u8() % 129) - 64) / 8;
-        c.summax = double(t.u16() % 5000);
-        c.summin = -double(t.u16() % 5000);
-        double a = double(int(t.u16() % 20001) - 10000), b = double(int(t.u16() % 20001) - 10000);
+        c.kp = R(int(t.u8() % 129) - 64) / 8;
+        c.ki = R(t.u8() % 65) / 8;
+        c.kd = R(int(t.u8() % 129) - 64) / 8;
+        c.summax = R(t.u16() % 5000);
+        c.summin = -R(t.u16() % 5000);
+        R a = R(int(t.u16() % 20001) - 10000), b = R(int(t.u16() % 20001) - 10000);
         c.outmin = std::min(a, b);
         c.outmax = std::max(a, b);
         cx.label(L_EXACT);
     }
     else
     {
-        auto mag = [&](double lim) { return std::ldexp(1.0 + double(t.u16()) / 65536.0, int(t.u8() % 41) - 20) * (lim / 1048576.0); }; // up to lim
+        auto mag = [&](R lim) { return std::ldexp(1.0 + R(t.u16()) / 65536.0, int(t.u8() % 41) - 20) * (lim / 1048576.0); }; // up to lim
         c.kp = (t.coin() ? 1 : -1) * mag(1e6);
         c.ki = mag(1e6);
         c.kd = (t.coin() ? 1 : -1) * mag(1e6);
         c.summax = mag(1e6);
         c.summin = -mag(1e6);
-        double a = (t.coin() ? 1 : -1) * mag(1e6), b = (t.coin() ? 1 : -1) * mag(1e6);
+        R a = (t.coin() ? 1 : -1) * mag(1e6), b = (t.coin() ? 1 : -1) * mag(1e6);
         c.outmin = std::min(a, b);
         c.outmax = std::max(a, b);
         cx.label(L_REAL);
@@ -93,28 +99,28 @@ static Limits gen_cfg(Tape &t, Ctx &cx, bool exact, bool wide)
     if (wide)
     {
         // limits wider than anything reachable: no limit ever active
-        c.summax = 1e300; c.summin = -1e300; c.outmax = 1e300; c.outmin = -1e300;
+        c.summax = BIG; c.summin = -BIG; c.outmax = BIG; c.outmin = -BIG;
     }
     if (t.u8() % 8 == 0) { c.summax = 0; }
     if (t.u8() % 8 == 0) { c.summin = 0; }
-    for (double v : {c.kp, c.ki, c.kd, c.summax, c.summin, c.outmax, c.outmin}) { cx.hash.addd(v); }
+    for (R v : {c.kp, c.ki, c.kd, c.summax, c.summin, c.outmax, c.outmin}) { cx.hash.addd(v); }
     return c;
 }
 static void apply(a_pid &p, Limits const &c)
 {
     p.kp = c.kp; p.ki = c.ki; p.kd = c.kd; p.summax = c.summax; p.summin = c.summin; p.outmax = c.outmax; p.outmin = c.outmin;
 }
-static void gen_in(Tape &t, bool exact, double &set, double &fdb)
+static void gen_in(Tape &t, bool exact, R &set, R &fdb)
 {
     if (exact)
     {
-        set = double(int(t.u16() % 2001) - 1000);
-        fdb = double(int(t.u16() % 2001) - 1000);
+        set = R(int(t.u16() % unsigned(2 * IN_LIM + 1)) - IN_LIM);
+        fdb = R(int(t.u16() % unsigned(2 * IN_LIM + 1)) - IN_LIM);
     }
     else
     {
-        set = std::ldexp(double(int32_t(t.u32())) / 2147483648.0, int(t.u8() % 41) - 20);
-        fdb = std::ldexp(double(int32_t(t.u32())) / 2147483648.0, int(t.u8() % 41) - 20);
+        set = std::ldexp(R(int32_t(t.u32())) / 2147483648.0, int(t.u8() % 41) - 20);
+        fdb = std::ldexp(R(int32_t(t.u32())) / 2147483648.0, int(t.u8() % 41) - 20);
     }
 }
 
@@ -162,7 +168,7 @@ static void case_plain(Tape &t, Ctx &cx)
         }
         if (op == 8 && exact)
         {
-            double kp = double(int(t.u8() % 129) - 64) / 8, ki = double(t.u8() % 65) / 8, kd = double(int(t.u8() % 129) - 64) / 8;
+            R kp = R(int(t.u8() % 129) - 64) / 8, ki = R(t.u8() % 65) / 8, kd = R(int(t.u8() % 129) - 64) / 8;
             a_pid_set_kpid(&p, kp, ki, kd);
             a_pid_set_kpid(&q, kp, ki, kd);
             pm.set_kpid(kp, ki, kd);
@@ -171,19 +177,19 @@ static void case_plain(Tape &t, Ctx &cx)
             twin_ok = false; // a gain change breaks the telescoping of the incremental form
             continue;
         }
-        double set, fdb;
+        R set, fdb;
         gen_in(t, exact, set, fdb);
         cx.hash.addd(set);
         cx.hash.addd(fdb);
         int mode = op == 0 ? 0 : (op <= 3 || op >= 7) ? 1 : 2;
         if (lastmode >= 0 && mode != lastmode) { cx.label(L_MODE_SWITCH); twin_ok = false; }
         lastmode = mode;
-        double sum_before = p.sum;
-        double got = mode == 0 ? a_pid_run(&p, set, fdb) : mode == 1 ? a_pid_pos(&p, set, fdb) : a_pid_inc(&p, set, fdb);
-        double want = mode == 0 ? r.run(set, fdb) : mode == 1 ? r.pos(set, fdb) : r.inc(set, fdb);
+        R sum_before = p.sum;
+        R got = mode == 0 ? a_pid_run(&p, set, fdb) : mode == 1 ? a_pid_pos(&p, set, fdb) : a_pid_inc(&p, set, fdb);
+        R want = mode == 0 ? r.run(set, fdb) : mode == 1 ? r.pos(set, fdb) : r.inc(set, fdb);
         {
-            double gm = mode == 0 ? pm.run(set, fdb) : mode == 1 ? pm.pos(set, fdb) : pm.inc(set, fdb);
-            VP_CHECK(cx, memcmp(&gm, &got, 8) == 0 && memcmp(&pm, &p, sizeof(p)) == 0, "pid:member_differs", "step %u mode %d: the C++ member function returns %.17g, the C function %.17g (or the states differ)", s, mode, gm, got);
+            R gm = mode == 0 ? pm.run(set, fdb) : mode == 1 ? pm.pos(set, fdb) : pm.inc(set, fdb);
+            VP_CHECK(cx, memcmp(&gm, &got, sizeof(R)) == 0 && memcmp(&pm, &p, sizeof(p)) == 0, "pid:member_differs", "step %u mode %d: the C++ member function returns %.17g, the C function %.17g (or the states differ)", s, mode, gm, got);
         }
         cx.log("  %s(set %.17g, fdb %.17g) -> %.17g (sum %.17g)\n", mode == 0 ? "run" : mode == 1 ? "pos" : "inc", set, fdb, got, p.sum);
         check_state(cx, p, "plain", s);
@@ -199,8 +205,8 @@ static void case_plain(Tape &t, Ctx &cx)
         }
         else
         {
-            double scale = std::fabs(r.kp * r.err) + std::fabs(r.sum) + std::fabs(r.kd * r.var) + std::fabs(want) + 1e-300;
-            if (!(std::fabs(got - want) <= 64 * 2.2e-16 * scale * (mode == 2 ? 50 : 1)) && mode != 2) { cx.fail("pid:positional_equation", "step %u: output %.17g, documented equation gives %.17g", s, got, want); }
+            R scale = std::fabs(r.kp * r.err) + std::fabs(r.sum) + std::fabs(r.kd * r.var) + std::fabs(want) + std::numeric_limits<R>::min();
+            if (!(std::fabs(got - want) <= 64 * EPS * scale * (mode == 2 ? 50 : 1)) && mode != 2) { cx.fail("pid:positional_equation", "step %u: output %.17g, documented equation gives %.17g", s, got, want); }
             if (mode == 2) { r.out = p.out; } // the incremental accumulation drifts by rounding: re-anchor the reference
             r.sum = p.sum;
         }
@@ -210,8 +216,9 @@ static void case_plain(Tape &t, Ctx &cx)
             if (sum_before >= p.summax) { VP_CHECK(cx, p.sum <= sum_before, "pid:integrator_windup", "step %u: integrator at %.17g >= summax %.17g moved further out to %.17g", s, sum_before, p.summax, p.sum); }
             if (sum_before <= p.summin) { VP_CHECK(cx, p.sum >= sum_before, "pid:integrator_windup", "step %u: integrator at %.17g <= summin %.17g moved further out to %.17g", s, sum_before, p.summin, p.sum); }
             // overshoot by at most one increment
-            double incr = std::fabs(p.ki * p.err);
-            VP_CHECK(cx, p.sum <= std::max(p.summax, sum_before) + incr * (1 + 1e-12) && p.sum >= std::min(p.summin, sum_before) - incr * (1 + 1e-12), "pid:integrator_overshoot", "step %u: integrator %.17g overshoots its clamp [%.17g, %.17g] by more than one increment %.17g", s, p.sum, p.summin, p.summax, incr);
+            R incr = std::fabs(p.ki * p.err);
+            R slack = incr + 8 * EPS * (incr + std::fabs(p.sum)); // one increment, plus the rounding of the increment and of the new sum
+            VP_CHECK(cx, p.sum <= std::max(p.summax, sum_before) + slack && p.sum >= std::min(p.summin, sum_before) - slack, "pid:integrator_overshoot", "step %u: integrator %.17g overshoots its clamp [%.17g, %.17g] by more than one increment %.17g", s, p.sum, p.summin, p.summax, incr);
             bool sa = p.sum >= p.summax || p.sum <= p.summin;
             if (sa) { cx.label(L_SUM_CLAMP_ACTIVE); }
             if (sum_active && !sa) { cx.label(L_SUM_CLAMP_RELEASED); released = true; }
@@ -224,7 +231,7 @@ static void case_plain(Tape &t, Ctx &cx)
         // positional and incremental coincide for as long as no limit is active (exact class, same history from zero state)
         if (exact && twin_ok && mode == 1)
         {
-            double gi = a_pid_inc(&q, set, fdb);
+            R gi = a_pid_inc(&q, set, fdb);
             bool limit = oa || p.sum >= p.summax || p.sum <= p.summin || q.out == q.outmax || q.out == q.outmin || sum_before >= p.summax || sum_before <= p.summin;
             if (limit) { twin_ok = false; }
             else
@@ -236,7 +243,7 @@ static void case_plain(Tape &t, Ctx &cx)
         else if (mode != 1) { twin_ok = false; }
     }
     if (steps >= 50) { cx.label(L_LONG); }
-    cx.metric(0, double(steps));
+    cx.metric(0, R(steps));
     if (released || zeroed) { cx.rep->nontrivial = true; }
 }
 
@@ -251,15 +258,15 @@ static void case_fuzzy(Tape &t, Ctx &cx)
     memset(&z, 0, sizeof(z));
     apply(z.pid, c);
     a_pid_fuzzy_set_opr(&z, f.opr);
-    auto dup = [](std::vector<double> const &v) {
-        double *p = (double *)malloc(sizeof(double) * v.size());
-        memcpy(p, v.data(), sizeof(double) * v.size());
+    auto dup = [](std::vector<R> const &v) {
+        R *p = (R *)malloc(sizeof(R) * v.size());
+        memcpy(p, v.data(), sizeof(R) * v.size());
         return p;
     };
-    double *me = dup(f.me), *mec = dup(f.mec), *kp = dup(f.kp), *ki = dup(f.ki), *kd = dup(f.kd);
+    R *me = dup(f.me), *mec = dup(f.mec), *kp = dup(f.kp), *ki = dup(f.ki), *kd = dup(f.kd);
     size_t nb = A_PID_FUZZY_BFUZZ(f.n); // room for every set being active at once
     void *buf = malloc(nb), *buf2 = malloc(nb);
-    struct Fr { double *a, *b, *c, *d, *e; void *buf, *buf2; ~Fr() { free(a); free(b); free(c); free(d); free(e); free(buf); free(buf2); } } fr{me, mec, kp, ki, kd, buf, buf2};
+    struct Fr { R *a, *b, *c, *d, *e; void *buf, *buf2; ~Fr() { free(a); free(b); free(c); free(d); free(e); free(buf); free(buf2); } } fr{me, mec, kp, ki, kd, buf, buf2};
     a_pid_fuzzy fresh;
     bool have_fresh = false;
     a_pid_fuzzy_set_rule(&z, f.n, me, mec, f.use_kp ? kp : nullptr, f.use_ki ? ki : nullptr, f.use_kd ? kd : nullptr);
@@ -341,44 +348,44 @@ static void case_fuzzy(Tape &t, Ctx &cx)
             have_fresh = true;
             continue;
         }
-        double set, fdb;
+        R set, fdb;
         if (exact) { gen_in(t, true, set, fdb); set /= 256; fdb /= 256; }
         else
         {
             // errors in and around the range of the membership tables
-            set = f.L * (double(t.u16()) / 32767.5 - 1) * 1.5;
-            fdb = f.L * (double(t.u16()) / 32767.5 - 1) * 0.5;
+            set = f.L * (R(t.u16()) / 32767.5 - 1) * 1.5;
+            fdb = f.L * (R(t.u16()) / 32767.5 - 1) * 0.5;
         }
         cx.hash.addd(set);
         cx.hash.addd(fdb);
         int mode = op == 0 ? 0 : op <= 4 ? 1 : 2;
-        double e_now = set - fdb, ec_now = e_now - z.pid.err;
-        double got = mode == 0 ? a_pid_fuzzy_run(&z, set, fdb) : mode == 1 ? a_pid_fuzzy_pos(&z, set, fdb) : a_pid_fuzzy_inc(&z, set, fdb);
+        R e_now = set - fdb, ec_now = e_now - z.pid.err;
+        R got = mode == 0 ? a_pid_fuzzy_run(&z, set, fdb) : mode == 1 ? a_pid_fuzzy_pos(&z, set, fdb) : a_pid_fuzzy_inc(&z, set, fdb);
         {
-            double gm = mode == 0 ? zm.run(set, fdb) : mode == 1 ? zm.pos(set, fdb) : zm.inc(set, fdb);
-            VP_CHECK(cx, memcmp(&gm, &got, 8) == 0 && memcmp(&zm.pid, &z.pid, sizeof(z.pid)) == 0, "pid:member_differs", "fuzzy step %u mode %d: the C++ member function returns %.17g, the C function %.17g (or the pid states differ)", s, mode, gm, got);
+            R gm = mode == 0 ? zm.run(set, fdb) : mode == 1 ? zm.pos(set, fdb) : zm.inc(set, fdb);
+            VP_CHECK(cx, memcmp(&gm, &got, sizeof(R)) == 0 && memcmp(&zm.pid, &z.pid, sizeof(z.pid)) == 0, "pid:member_differs", "fuzzy step %u mode %d: the C++ member function returns %.17g, the C function %.17g (or the pid states differ)", s, mode, gm, got);
         }
         check_state(cx, z.pid, "fuzzy", s);
         {
             // the gains used in this step are the base gains plus the weighted mean of the active consequents
             LD dg[3];
             ref_gains(f, e_now, ec_now, dg, nullptr);
-            double base[3] = {c.kp, c.ki, c.kd}, cur[3] = {z.pid.kp, z.pid.ki, z.pid.kd};
+            R base[3] = {c.kp, c.ki, c.kd}, cur[3] = {z.pid.kp, z.pid.ki, z.pid.kd};
             for (int k = 0; k < 3; ++k)
             {
-                LD tol = 64 * (f.n * f.n + 4) * 1.1102230246251565e-16L * (fabsl((LD)base[k]) + 8);
+                LD tol = 64 * (f.n * f.n + 4) * U_ * (fabsl((LD)base[k]) + 8);
                 if (!(fabsl((LD)cur[k] - ((LD)base[k] + dg[k])) <= tol)) { cx.fail("pid:fuzzy_gain_schedule", "step %u (e=%.17g, ec=%.17g): gain %d is %.17g, base %.17g + weighted mean %.17Lg expected", s, e_now, ec_now, k, cur[k], base[k], dg[k]); }
             }
         }
         if (have_fresh)
         {
-            double gf = mode == 0 ? a_pid_fuzzy_run(&fresh, set, fdb) : mode == 1 ? a_pid_fuzzy_pos(&fresh, set, fdb) : a_pid_fuzzy_inc(&fresh, set, fdb);
-            VP_CHECK(cx, memcmp(&gf, &got, 8) == 0 && z.pid.sum == fresh.pid.sum, "pid:zero_not_fresh", "fuzzy step %u after zero: output %.17g, a freshly initialised controller gives %.17g", s, got, gf);
+            R gf = mode == 0 ? a_pid_fuzzy_run(&fresh, set, fdb) : mode == 1 ? a_pid_fuzzy_pos(&fresh, set, fdb) : a_pid_fuzzy_inc(&fresh, set, fdb);
+            VP_CHECK(cx, memcmp(&gf, &got, sizeof(R)) == 0 && z.pid.sum == fresh.pid.sum, "pid:zero_not_fresh", "fuzzy step %u after zero: output %.17g, a freshly initialised controller gives %.17g", s, got, gf);
         }
         VP_CHECK(cx, fin(z.kp) && fin(z.ki) && fin(z.kd), "pid:state_not_finite", "fuzzy step %u: base gains not finite", s);
         if (zero_rules)
         {
-            double pw = mode == 0 ? a_pid_run(&plain, set, fdb) : mode == 1 ? a_pid_pos(&plain, set, fdb) : a_pid_inc(&plain, set, fdb);
+            R pw = mode == 0 ? a_pid_run(&plain, set, fdb) : mode == 1 ? a_pid_pos(&plain, set, fdb) : a_pid_inc(&plain, set, fdb);
             VP_CHECK(cx, got == pw && z.pid.sum == plain.sum, "pid:fuzzy_zero_rules_ne_plain", "step %u: fuzzy controller with an all-zero rule base outputs %.17g, the plain controller %.17g", s, got, pw);
         }
         bool oa = z.pid.out == z.pid.outmax || z.pid.out == z.pid.outmin;
@@ -386,7 +393,7 @@ static void case_fuzzy(Tape &t, Ctx &cx)
         if (out_active && !oa) { cx.label(L_OUT_LIMIT_RELEASED); released = true; }
         out_active = oa;
     }
-    cx.metric(0, double(steps));
+    cx.metric(0, R(steps));
     if (released || zeroed) { cx.rep->nontrivial = true; }
 }
 
@@ -397,9 +404,9 @@ static void case_neuro(Tape &t, Ctx &cx)
     a_pid_neuro n, fresh;
     memset(&n, 0, sizeof(n));
     apply(n.pid, c);
-    double k = exact ? double(1 + t.u8() % 64) / 8 : std::ldexp(1.0 + double(t.u8()) / 256, int(t.u8() % 21) - 10);
-    double w0[3];
-    for (double &w : w0) { w = exact ? double(int(t.u8() % 33) - 16) / 8 : (double(t.u16()) / 32767.5 - 1) * 4; }
+    R k = exact ? R(1 + t.u8() % 64) / 8 : std::ldexp(1.0 + R(t.u8()) / 256, int(t.u8() % 21) - 10);
+    R w0[3];
+    for (R &w : w0) { w = exact ? R(int(t.u8() % 33) - 16) / 8 : (R(t.u16()) / 32767.5 - 1) * 4; }
     a_pid_neuro_set_kpid(&n, k, c.kp, c.ki, c.kd);
     a_pid_neuro_set_wpid(&n, w0[0], w0[1], w0[2]);
     a_pid_neuro_init(&n);
@@ -411,7 +418,7 @@ static void case_neuro(Tape &t, Ctx &cx)
     nm.init();
     cx.label(L_NEURO);
     cx.hash.addd(k);
-    for (double w : w0) { cx.hash.addd(w); }
+    for (R w : w0) { cx.hash.addd(w); }
     cx.log("neuro pid k=%.17g w=(%.17g, %.17g, %.17g)\n", k, w0[0], w0[1], w0[2]);
     unsigned steps = 1 + t.u8() % 120;
     bool zeroed = false, released = false, out_active = false;
@@ -437,30 +444,30 @@ static void case_neuro(Tape &t, Ctx &cx)
             VP_CHECK(cx, n.ec == 0 && n.pid.out == 0 && n.pid.err == 0 && n.pid.var == 0 && n.pid.fdb == 0 && n.pid.sum == 0, "pid:zero_incomplete", "a_pid_neuro_zero left state behind");
             continue;
         }
-        double set, fdb;
+        R set, fdb;
         gen_in(t, exact, set, fdb);
         if (exact) { set /= 64; fdb /= 64; }
         cx.hash.addd(set);
         cx.hash.addd(fdb);
         int mode = op == 0 ? 0 : 2;
-        double got = mode == 0 ? a_pid_neuro_run(&n, set, fdb) : a_pid_neuro_inc(&n, set, fdb);
+        R got = mode == 0 ? a_pid_neuro_run(&n, set, fdb) : a_pid_neuro_inc(&n, set, fdb);
         {
-            double gm = mode == 0 ? nm.run(set, fdb) : nm.inc(set, fdb);
-            VP_CHECK(cx, memcmp(&gm, &got, 8) == 0 && memcmp(&nm, &n, sizeof(n)) == 0, "pid:member_differs", "neuro step %u: the C++ member function returns %.17g, the C function %.17g (or the states differ)", s, gm, got);
+            R gm = mode == 0 ? nm.run(set, fdb) : nm.inc(set, fdb);
+            VP_CHECK(cx, memcmp(&gm, &got, sizeof(R)) == 0 && memcmp(&nm, &n, sizeof(n)) == 0, "pid:member_differs", "neuro step %u: the C++ member function returns %.17g, the C function %.17g (or the states differ)", s, gm, got);
         }
         check_state(cx, n.pid, "neuro", s);
         VP_CHECK(cx, fin(n.wp) && fin(n.wi) && fin(n.wd) && fin(n.ec) && fin(n.k), "pid:state_not_finite", "neuro step %u: weights/ec not finite (%.17g, %.17g, %.17g, %.17g)", s, n.wp, n.wi, n.wd, n.ec);
         if (have_fresh)
         {
-            double gf = mode == 0 ? a_pid_neuro_run(&fresh, set, fdb) : a_pid_neuro_inc(&fresh, set, fdb);
-            VP_CHECK(cx, memcmp(&gf, &got, 8) == 0 && n.wp == fresh.wp && n.wi == fresh.wi && n.wd == fresh.wd, "pid:zero_not_fresh", "neuro step %u after zero: output %.17g, a freshly initialised controller gives %.17g", s, got, gf);
+            R gf = mode == 0 ? a_pid_neuro_run(&fresh, set, fdb) : a_pid_neuro_inc(&fresh, set, fdb);
+            VP_CHECK(cx, memcmp(&gf, &got, sizeof(R)) == 0 && n.wp == fresh.wp && n.wi == fresh.wi && n.wd == fresh.wd, "pid:zero_not_fresh", "neuro step %u after zero: output %.17g, a freshly initialised controller gives %.17g", s, got, gf);
         }
         bool oa = n.pid.out == n.pid.outmax || n.pid.out == n.pid.outmin;
         if (oa) { cx.label(L_OUT_LIMIT_ACTIVE); }
         if (out_active && !oa) { cx.label(L_OUT_LIMIT_RELEASED); released = true; }
         out_active = oa;
     }
-    cx.metric(0, double(steps));
+    cx.metric(0, R(steps));
     if (released || zeroed) { cx.rep->nontrivial = true; }
 }
 
@@ -480,7 +487,7 @@ static void case_zero_fresh(Tape &t, Ctx &cx)
     unsigned h1 = 1 + t.u8() % 40, h2 = 1 + t.u8() % 40;
     for (unsigned s = 0; s < h1; ++s)
     {
-        double set, fdb;
+        R set, fdb;
         gen_in(t, exact, set, fdb);
         uint8_t m = t.u8() % 3;
         m == 0 ? a_pid_run(&p, set, fdb) : m == 1 ? a_pid_pos(&p, set, fdb) : a_pid_inc(&p, set, fdb);
@@ -492,13 +499,13 @@ static void case_zero_fresh(Tape &t, Ctx &cx)
     for (unsigned s = 0; s < h2; ++s)
     {
         ++cx.rep->subcases;
-        double set, fdb;
+        R set, fdb;
         gen_in(t, exact, set, fdb);
         cx.hash.addd(set);
         uint8_t m = t.u8() % 3;
-        double a = m == 0 ? a_pid_run(&p, set, fdb) : m == 1 ? a_pid_pos(&p, set, fdb) : a_pid_inc(&p, set, fdb);
-        double b = m == 0 ? a_pid_run(&q, set, fdb) : m == 1 ? a_pid_pos(&q, set, fdb) : a_pid_inc(&q, set, fdb);
-        VP_CHECK(cx, memcmp(&a, &b, 8) == 0 && p.sum == q.sum, "pid:zero_not_fresh", "step %u after a_pid_zero: output %.17g, a freshly initialised controller gives %.17g", s, a, b);
+        R a = m == 0 ? a_pid_run(&p, set, fdb) : m == 1 ? a_pid_pos(&p, set, fdb) : a_pid_inc(&p, set, fdb);
+        R b = m == 0 ? a_pid_run(&q, set, fdb) : m == 1 ? a_pid_pos(&q, set, fdb) : a_pid_inc(&q, set, fdb);
+        VP_CHECK(cx, memcmp(&a, &b, sizeof(R)) == 0 && p.sum == q.sum, "pid:zero_not_fresh", "step %u after a_pid_zero: output %.17g, a freshly initialised controller gives %.17g", s, a, b);
     }
 }
 
